@@ -21,6 +21,17 @@ CLAIMED = {
         technique="symbolic execution of the real Python source (operator overloading) + z3 (LRA/NRA) per path; "
                   "concolic path selection + bounded fork exploration; counterexamples replayed on the real pipeflow",
         design="4/C01"),
+    "C02": dict(
+        text="Bounded model checking of the real hydraulic code at an arbitrary state: per pipe section, valve and heat "
+             "exchanger the residual row the real pipeflow assembles is proved equal, as a term over all inputs, to the "
+             "documented momentum equation (liquid: hydrostatic + Darcy-Weisbach + lumped loss; gas: integrated real-gas form "
+             "with K at the mean pressure) with geometry taken from the input tables; Reynolds number and friction factor are "
+             "proved to be the documented functions (Nikuradse, Swamee-Jain; Colebrook-White as the root of the documented "
+             "implicit equation), and reported lambda / Re / velocities / volume flow / norm factors to follow from the "
+             "reported flow, pressures and temperatures. numpy and numba py_func, forward / reverse / zero flow.",
+        technique="symbolic execution of the real Python source + z3 term identities (abs canonicalisation, rational normal "
+                  "form, NRA); counterexamples replayed on the real pipeflow",
+        design="4/C02"),
     "C03": dict(
         text="Bounded model checking of the real code: every prescribed pressure / mass flow / lift / load is compared with "
              "the value the real extraction writes into the result tables, as z3 terms over all numeric inputs. Linear "
